@@ -506,7 +506,12 @@ func runMode(t *testing.T, property string, scenarios []*Scenario) {
 			}
 			c.Scenario = sc.Name
 			_ = sub
-			oc := RunCase(t, sc, &c, false)
+			traceThis := os.Getenv("VERIF_TRACECASE") != "" && envInt("VERIF_TRACECASE", -1) == res.Evaluations
+			oc := RunCase(t, sc, &c, traceThis)
+			if traceThis && oc.Sim != nil { // debugging aid for determinism self-tests: the full event log of one case
+				cj, _ := json.Marshal(c)
+				_ = os.WriteFile(os.Getenv("VERIF_OUT")+".trace", []byte(string(cj)+"\n"+strings.Join(oc.Sim.Trace, "\n")+"\n"), 0o644)
+			}
 			st.Run++
 			res.Evaluations++
 			if oc.Internal != "" {
